@@ -139,10 +139,29 @@ func (fs *Store) AddMessage(m storage.Message) (id string, err error) {
 	fm.Fsize = size
 	fm.Fsubject = m.Subject()
 	mb.messages = append(mb.messages, fm)
+
+	// Messages over the cap leave the index in the same write that adds the new one, so that a
+	// reader (or a restart after a crash) sees the mailbox either before or after this delivery.
+	var evicted []*Message
+	if fs.messageCap > 0 && len(mb.messages) > fs.messageCap {
+		log.Info().Str("module", "storage").Str("mailbox", mb.name).
+			Msg("Mailbox over message cap")
+		n := len(mb.messages) - fs.messageCap
+		evicted = append(evicted, mb.messages[:n]...)
+		mb.messages = mb.messages[n:]
+	}
 	if err := mb.writeIndex(); err != nil {
 		// Try to remove the file.
 		_ = os.Remove(fm.rawPath())
 		return "", err
+	}
+	for _, old := range evicted {
+		fs.extHost.Events.AfterMessageDeleted.Emit(message.MakeMetadata(old))
+		crashPoint("remove-raw", old.rawPath())
+		if err := os.Remove(old.rawPath()); err != nil {
+			log.Error().Str("module", "storage").Str("mailbox", mb.name).Str("id", old.Fid).
+				Err(err).Msg("Unable to delete message")
+		}
 	}
 
 	return fm.Fid, nil
